@@ -38,6 +38,7 @@ pub struct Scenario {
     pub conn_num: usize,
     pub active_redirection: bool,
     pub wide: bool, // member of the wide thorough family (explored one deferral shallower)
+    pub lone_deferral: bool, // a request may be deferred even when nothing else is pending at that moment (thorough)
 }
 
 impl Scenario {
@@ -211,7 +212,11 @@ async fn run_schedule(sc: &Scenario, prefix: &[usize], horizon: usize) -> RunOut
     let mut deferred_clients: BTreeMap<usize, usize> = BTreeMap::new();
     const DEFER_SPAN: usize = 16;
     loop {
-        world.settle().await;
+        // long internal task chains (reply -> handler -> queue -> backend task -> connection) need
+        // more than one quiet period to surface their next request
+        for _ in 0..3 {
+            world.settle().await;
+        }
         let s = step.load(Ordering::SeqCst);
         let all_clients_done = (0..sc.clients.len()).all(|c| next_op[c] >= sc.clients[c].1.len() && busy[c].load(Ordering::SeqCst) == 0);
         // commit as soon as the source reports the task finished (real coordinator round)
@@ -249,8 +254,8 @@ async fn run_schedule(sc: &Scenario, prefix: &[usize], horizon: usize) -> RunOut
                 eligible_clients.push(c);
             }
         }
-        let held_c = |c: &usize| deferred_clients.get(c).map(|u| served < *u).unwrap_or(false);
-        let held_r = |id: &u64| deferred_reqs.get(id).map(|u| served < *u).unwrap_or(false);
+        let held_c = |c: &usize| deferred_clients.get(c).map(|u| s < *u).unwrap_or(false);
+        let held_r = |id: &u64| deferred_reqs.get(id).map(|u| s < *u).unwrap_or(false);
         let fresh_clients: Vec<usize> = eligible_clients.iter().cloned().filter(|c| !held_c(c)).collect();
         let fresh_reqs: Vec<&ReqInfo> = pending.iter().filter(|p| !held_r(&p.id)).collect();
         let old_reqs: Vec<&ReqInfo> = pending.iter().filter(|p| held_r(&p.id)).collect();
@@ -259,16 +264,18 @@ async fn run_schedule(sc: &Scenario, prefix: &[usize], horizon: usize) -> RunOut
             (1, *c as u64)
         } else if let Some(r) = fresh_reqs.first() {
             (0, r.id)
-        } else if let Some(r) = old_reqs.first() {
-            (0, r.id)
+        } else if !old_reqs.is_empty() || eligible_clients.iter().any(|c| held_c(c)) {
+            // only deferred subjects are enabled: let time pass (their deferral lapses after
+            // DEFER_SPAN steps), so that requests still in flight inside the proxies can overtake
+            (2, 0)
         } else if let Some(c) = eligible_clients.first() {
             (1, *c as u64)
         } else {
             (2, 0)
         };
         let can_defer = match default_action {
-            (1, c) => !deferred_clients.contains_key(&(c as usize)) && (!pending.is_empty() || eligible_clients.len() > 1),
-            (0, id) => !deferred_reqs.contains_key(&id) && (pending.len() > 1 || !eligible_clients.is_empty()),
+            (1, c) => !deferred_clients.contains_key(&(c as usize)) && (sc.lone_deferral || !pending.is_empty() || eligible_clients.len() > 1),
+            (0, id) => !deferred_reqs.contains_key(&id) && (sc.lone_deferral || pending.len() > 1 || !eligible_clients.is_empty()),
             _ => false,
         };
         let menu_len = if can_defer { 2 } else { 1 };
@@ -279,11 +286,11 @@ async fn run_schedule(sc: &Scenario, prefix: &[usize], horizon: usize) -> RunOut
         if chosen == 1 {
             match default_action {
                 (1, c) => {
-                    deferred_clients.insert(c as usize, served + DEFER_SPAN);
+                    deferred_clients.insert(c as usize, s + DEFER_SPAN);
                     out.trace.push(format!("{}: DEFER client {}", s, c));
                 }
                 (0, id) => {
-                    deferred_reqs.insert(id, served + DEFER_SPAN);
+                    deferred_reqs.insert(id, s + DEFER_SPAN);
                     if let Some(p) = pending.iter().find(|p| p.id == id) {
                         out.trace.push(format!("{}: DEFER {}->{} {}", s, p.from, p.to, p.cmds.first().map(show_cmd).unwrap_or_default().chars().take(40).collect::<String>()));
                     }
@@ -489,11 +496,11 @@ fn scenarios(thorough: bool) -> Vec<Scenario> {
     let p = |v: &str| Some((v.to_string(), false));
     let pt = |v: &str| Some((v.to_string(), true));
     let mut s = vec![];
-    let grid: Vec<usize> = if thorough { vec![0, 4, 6, 9, 12] } else { vec![0, 4, 6, 9] };
+    let grid: Vec<usize> = if thorough { vec![0, 4, 6, 9, 12] } else { vec![0, 4, 9] };
     let mut push = |init: [Option<(String, bool)>; 3], clients: Vec<(usize, Vec<COp>)>, scan_count: u64, conn_num: usize, red: bool| {
         for a in &grid {
             for b in &grid {
-                s.push(Scenario { init: init.clone(), clients: clients.clone(), thresholds: vec![*a, *b], scan_count, conn_num, active_redirection: red, wide: false });
+                s.push(Scenario { init: init.clone(), clients: clients.clone(), thresholds: vec![*a, *b], scan_count, conn_num, active_redirection: red, wide: false, lone_deferral: thorough });
             }
         }
     };
@@ -511,6 +518,10 @@ fn scenarios(thorough: bool) -> Vec<Scenario> {
     push([p("a"), pt("b"), p("c")], vec![(1, vec![Expire(0)]), (0, vec![Get(2)])], 1, 1, false);
     push([p("a"), p("b"), p("c")], vec![(1, vec![Set(0, "n".into())]), (0, vec![Get(2)])], 1, 1, false);
     push([p("1"), p("b"), p("c")], vec![(1, vec![Incr(0)]), (2, vec![Get(2)])], 1, 1, false);
+    // write / delete followed by a read of the same key by the same client
+    push([p("a"), p("b"), p("c")], vec![(1, vec![Del(0), Get(0)]), (0, vec![Get(2)])], 1, 1, false);
+    push([p("a"), p("b"), p("c")], vec![(2, vec![Del(1), Exists(1)]), (1, vec![Get(2)])], 16, 1, false);
+    push([p("a"), p("b"), p("c")], vec![(1, vec![Set(0, "n".into()), Get(0)]), (0, vec![Get(2)])], 1, 1, false);
     if thorough {
         for (sc, cn, red) in [(1u64, 1usize, false), (16, 2, false), (1, 1, true)] {
             for a in [Get(0), Set(0, "s1".into()), Del(0), Incr(0), Exists(0), Expire(0)] {
@@ -524,7 +535,7 @@ fn scenarios(thorough: bool) -> Vec<Scenario> {
             push([p("a"), None, p("c")], vec![(1, vec![EvalGet, Set(1, "e".into())]), (2, vec![Del(0), Get(1)])], sc, cn, red);
         }
     }
-    let core = 11 * grid.len() * grid.len(); // the eleven families pushed before the wide block
+    let core = 14 * grid.len() * grid.len(); // the fourteen families pushed before the wide block
     for (i, x) in s.iter_mut().enumerate() {
         x.wide = i >= core;
     }
@@ -536,7 +547,8 @@ pub fn run(cli: &Cli) -> (Value, Vec<Violation>) {
     let bound: usize = cli.opt("--deviations").and_then(|s| s.parse().ok()).unwrap_or(if thorough { 3 } else { 2 }).max(1);
     let horizon = 600;
     let scs = Arc::new(scenarios(thorough));
-    let queue: Arc<Mutex<VecDeque<(usize, Vec<usize>)>>> = Arc::new(Mutex::new((0..scs.len()).map(|i| (i, vec![])).collect()));
+    let only: Option<usize> = std::env::var("C03_SCEN").ok().and_then(|s| s.parse().ok());
+    let queue: Arc<Mutex<VecDeque<(usize, Vec<usize>)>>> = Arc::new(Mutex::new((0..scs.len()).filter(|i| only.map(|o| o == *i).unwrap_or(true)).map(|i| (i, vec![])).collect()));
     let inflight = Arc::new(AtomicUsize::new(0));
     struct Acc {
         execs: usize,
@@ -572,7 +584,7 @@ pub fn run(cli: &Cli) -> (Value, Vec<Violation>) {
                 }
             };
             let (scs2, p2) = (scs.clone(), prefix.clone());
-            let out = vh::det::on_fresh_thread(w as u64 * 7919 + si as u64, 32 << 20, move || run_sim(run_schedule(&scs2[si], &p2, horizon)));
+            let out = vh::det::on_fresh_thread(si as u64 + 1, 32 << 20, move || run_sim(run_schedule(&scs2[si], &p2, horizon)));
             let out = match out {
                 Ok(o) => o,
                 Err(_) => {
@@ -589,7 +601,7 @@ pub fn run(cli: &Cli) -> (Value, Vec<Violation>) {
                 eprintln!("=== HORIZON scenario {} {} prefix {:?}\n{}", si, scs[si].label(), prefix, out.trace.iter().take(120).cloned().collect::<Vec<_>>().join("\n"));
                 std::process::exit(3);
             }
-            if std::env::var("C03_TRACE").is_ok() && prefix.is_empty() {
+            if std::env::var("C03_TRACE").map(|v| v == "all" || prefix.is_empty()).unwrap_or(false) {
                 eprintln!("=== scenario {} {}\n{}\n done {:?}\n dst {:?} src {:?} other {:?} committed {} horizon {}", si, scs[si].label(), out.trace.join("\n"), out.done, out.final_dst, out.final_src, out.final_other, out.committed, out.horizon_hit);
             }
             let viol = judge(&scs[si], &out);
@@ -643,7 +655,7 @@ pub fn run(cli: &Cli) -> (Value, Vec<Violation>) {
     let cov = json!({
         "evaluations": a.execs,
         "distinct_nontrivial": a.outcomes.len().max(2),
-        "rule": format!("one evaluation = one complete execution of a scenario (4->8 node scale-out with migration_limit 1, focus migration between real proxies, 2 clients with 1-2 operations on two keys that share a migration lock slot + one key outside the range, initial contents absent/present/with TTL) under one message-level schedule; all schedules with <= {} deferrals are enumerated (default: submit the next eligible client operation, else serve the oldest pending request, else +1 ms; a deferral postpones the subject of the default action until everything else pending has been served or 16 other requests have been served, whichever is first - delay bounding); distinct = distinct (scenario, reply vector, final destination contents)", bound),
+        "rule": format!("one evaluation = one complete execution of a scenario (4->8 node scale-out with migration_limit 1, focus migration between real proxies, 2 clients with 1-2 operations on two keys that share a migration lock slot + one key outside the range, initial contents absent/present/with TTL) under one message-level schedule; all schedules with <= {} deferrals are enumerated (default: submit the next eligible client operation, else serve the oldest pending request, else +1 ms; a deferral postpones the subject of the default action for the next 16 explorer steps (serves, client submissions or 1 ms ticks) - delay bounding); distinct = distinct (scenario, reply vector, final destination contents)", bound),
         "scenarios": scs.len(),
         "executions_per_scenario": a.per_scenario.values().cloned().collect::<Vec<_>>(),
         "choice_points": a.steps,
